@@ -191,6 +191,8 @@ def run_shard(shard):
     elif shard['kind'] == 'corpus':
         for src in c03.load_corpus():
             one(src, 'corpus')
+        for i, src in enumerate(gen_program.array_shapes()):
+            one(src, 'array_shapes', sample=(i % 50 == 0))
     else:
         n = 0
         for idx, (src, meta) in enumerate(product_cases()):
